@@ -35,7 +35,7 @@ def encItems : List SDESItem → Out Bytes
     let rest ← encItems is
     pure (a ++ rest)
 
-def itemsLen (is : List SDESItem) : Nat := (is.map SDESItem.len).foldl (· + ·) 0
+def itemsLen (is : List SDESItem) : Nat := (is.map SDESItem.len).sum
 
 /-- `SourceDescriptionChunk.len` -/
 def SDESChunk.len (c : SDESChunk) : Nat :=
@@ -85,7 +85,7 @@ def encChunks : List SDESChunk → Out Bytes
     let rest ← encChunks cs
     pure (a ++ rest)
 
-def chunksLen (cs : List SDESChunk) : Nat := (cs.map SDESChunk.len).foldl (· + ·) 0
+def chunksLen (cs : List SDESChunk) : Nat := (cs.map SDESChunk.len).sum
 
 def SourceDescription.marshalSize (s : SourceDescription) : Nat := headerLength + chunksLen s.chunks
 
